@@ -5,6 +5,8 @@ import UscxmlVerif.Proofs.CfgInv
 import UscxmlVerif.Proofs.Nest
 import UscxmlVerif.Proofs.Interval
 import UscxmlVerif.Proofs.Subtree
+import UscxmlVerif.Proofs.DownRunFast
+import UscxmlVerif.Proofs.DownOk
 /-!
 # C03 — the two micro-step engines are interchangeable (what is proved of both alike)
 
@@ -55,5 +57,23 @@ theorem fast_selection_conflict_free_w3c_of_document (d : Doc) (late : Bool) (hw
 theorem both_engines_keep_configuration_a_set (c : Chart) (e : EState) (h : Proofs.CfgInv.EOk c e) :
     Proofs.CfgInv.EOk c (Large.step c e).1 ∧ Proofs.CfgInv.EOk c (Fast.step c e).1 :=
   ⟨Proofs.CfgInv.large_step_ok c e h, Proofs.CfgInv.fast_step_ok c e h⟩
+
+/-- both engines keep every active state's parent active and the configuration inside the chart, step by step, on history-free
+charts (the hypotheses are those of `Properties.C02.parents_stay_active_partial`) -/
+theorem both_engines_keep_parents_partial (c : Chart) (hcoh : Proofs.Struct.Coherent c = true) (hi : Proofs.Interval.IntervalOK c = true)
+    (hk : Proofs.EntryClosed.EntryOk c = true) (hp : Proofs.Parents.SelPlain c = true) (hpf : Proofs.ParentsFast.SelPlainF c = true)
+    (e : EState) (h : Proofs.Parents.PC c e) :
+    Proofs.Parents.PC c (Large.step c e).1 ∧ Proofs.Parents.PC c (Fast.step c e).1 :=
+  ⟨Proofs.Parents.large_step_pc c hcoh hi (Proofs.EntryClosed.eok_of_entryOk hk) hp e h,
+   Proofs.ParentsFast.fast_step_pc c hcoh hi (Proofs.EntryClosed.eok_of_entryOk hk) hpf e h⟩
+
+/-- both engines keep the configuration complete downwards (all children of an active parallel, a child of an active compound state),
+step by step, on history-free charts (hypotheses of `Properties.C02.active_states_are_complete_partial`) -/
+theorem both_engines_keep_complete_partial (c : Chart) (hcoh : Proofs.Struct.Coherent c = true) (hi : Proofs.Interval.IntervalOK c = true)
+    (hk : Proofs.EntryClosed.EntryOk c = true) (hd : Proofs.DownOk.DownOk c = true) (hp : Proofs.Parents.SelPlain c = true)
+    (hpf : Proofs.ParentsFast.SelPlainF c = true) (e : EState) (h : Proofs.DownRun.DC c e) :
+    Proofs.DownRun.DC c (Large.step c e).1 ∧ Proofs.DownRun.DC c (Fast.step c e).1 :=
+  ⟨Proofs.DownRun.large_step_dc c hcoh hi (Proofs.EntryClosed.eok_of_entryOk hk) (Proofs.DownOk.dok_of_downOk hd) hp e h,
+   Proofs.DownRunFast.fast_step_dc c hcoh hi (Proofs.EntryClosed.eok_of_entryOk hk) (Proofs.DownOk.dok_of_downOk hd) hpf e h⟩
 
 end UscxmlVerif.Properties.C03
